@@ -1,5 +1,6 @@
 (* allow-axioms:  *)
-From RRE Require Import Base.Sx Model.KB Proofs.KBProofs Proofs.KBRefineProofs.
+From RRE Require Import Base.Sx Model.KB Proofs.KBProofs Proofs.KBRefineProofs Proofs.KBLinProofs.
+From Coq Require Import Permutation.
 From Coq Require Import Sorting.Sorted.
 Open Scope Z_scope.
 From RRE Require Import Properties.C15.
@@ -15,3 +16,6 @@ Check (C15_sequential_refinement : forall ops, run_from init ops = srun_from sin
 Check (C15_spec_listing : forall s, NoDup (map s_seq (srules s)) ->
   Permutation.Permutation (slisting s) (map s_rule (srules s))
   /\ StronglySorted (fun a b => before a b = true) (fold_left (fun acc x => sinsert x acc) (srules s) [])).
+Check (C15_lin_checker_decides : forall fuel k p, (length p <= fuel)%nat ->
+  (lin fuel k p = true <->
+   exists s, Permutation s p /\ rt s = true /\ replay k s = true)).
